@@ -688,38 +688,73 @@ def built_validates_obligation(P):
 
 
 def range_steps_obligations(P):
-    """drivers iterate range(n_timesteps)"""
+    """the drivers perform one single run per time step 0 .. n_timesteps-1.  The interface drivers are decided by
+    interpretation (the series they return is [single(tower, k) for k in range(n_timesteps)], whatever the loop looks like);
+    the command-line front end by its loop bounds."""
+    import props_state as ps
+
     obs = []
-    for modname, fnames in (("bldfm.interface", ("run_bldfm_timeseries", "run_bldfm_parallel")), ("bldfm.cli", ("cmd_run",))):
-        mod = P.module(modname)
-        for fname in fnames:
-            fn = mod.functions.get(fname)
-            site = "src/%s.py::%s" % (modname.replace(".", "/"), fname)
-            if fn is None:
-                obs.append(req_ob("R-STEPS", site, "driver exists", None))
-                continue
-            names = {}
-            for n in ast.walk(fn):
-                if isinstance(n, ast.Assign) and len(n.targets) == 1 and isinstance(n.targets[0], ast.Name):
-                    names[n.targets[0].id] = n.value
-            loops = []
-            for n in ast.walk(fn):
-                it = None
-                if isinstance(n, ast.For):
-                    it = n.iter
-                elif isinstance(n, ast.comprehension):
-                    it = n.iter
-                if it is not None and isinstance(it, ast.Call) and dotted_name(it.func) == "range":
-                    loops.append(it)
-            good = 0
-            for it in loops:
-                a = it.args[0] if len(it.args) == 1 else None
-                if isinstance(a, ast.Name) and a.id in names:
-                    a = names[a.id]
-                d = dotted_name(a) if a is not None else None
-                if d and d.endswith("met.n_timesteps"):
+    nsteps = alg.sym("n_steps", pos=True, integer=True)
+    site = "src/bldfm/interface.py::run_bldfm_timeseries"
+    cfg = ps._driver_config(P)
+    tower = cfg.attrs["towers"].items[0]
+    flux = alg.sym("user_flux")
+    try:
+        res = CM.run_paths(P, "bldfm.interface", "run_bldfm_timeseries", [cfg, tower], {"surface_flux": flux}, stubs={"bldfm.interface.run_bldfm_single": ps._single_stub([])})
+        rets = [r for r in res if r.kind == "return"]
+        if len(res) == 1 and len(rets) == 1:
+            ok, why = ps._unk(ps._expect_series(tower, nsteps, flux, "None"), rets[0].value)
+        else:
+            ok, why = (False if res else None), str([(r.kind, r.raise_desc) for r in res])[:200]
+    except AnalysisError as e:
+        ok, why = None, str(e)
+    obs.append(req_ob("R-STEPS", site, "the time-series driver performs the single runs of steps 0 .. n_timesteps-1, in order", ok, detail=why))
+    site = "src/bldfm/interface.py::run_bldfm_parallel"
+    for strategy in ("time", "both"):
+        ob = [o for o in ps.driver_obligations(P) if o.rule == "R-ORDERED" and ("strategy %r: the entry of a tower" % strategy) in o.what] if strategy == "time" else []
+    for o in [o for o in ps.driver_obligations(P) if o.rule == "R-ORDERED" and "the entry of a tower is the time-ordered list" in o.what]:
+        obs.append(Ob("R-STEPS", site, o.what, o.verdict, detail=o.detail, key=o.key))
+    # command-line front end
+    mod = P.module("bldfm.cli")
+    fn = mod.functions.get("cmd_run")
+    site = "src/bldfm/cli.py::cmd_run"
+    if fn is None:
+        obs.append(req_ob("R-STEPS", site, "driver exists", None))
+        return obs
+    names = {}
+    for n in ast.walk(fn):
+        if isinstance(n, ast.Assign) and len(n.targets) == 1 and isinstance(n.targets[0], ast.Name):
+            names[n.targets[0].id] = n.value
+    loops = []
+    for n in ast.walk(fn):
+        it = n.iter if isinstance(n, (ast.For, ast.comprehension)) else None
+        if it is not None and isinstance(it, ast.Call) and dotted_name(it.func) == "range":
+            loops.append(it)
+
+    def resolve(a):
+        seen = 0
+        while isinstance(a, ast.Name) and a.id in names and seen < 4:
+            a, seen = names[a.id], seen + 1
+        return a
+
+    def is_nsteps(a):
+        d = dotted_name(resolve(a)) if a is not None else None
+        return bool(d and d.endswith("met.n_timesteps"))
+
+    good = 0
+    for it in loops:
+        if len(it.args) == 1 and is_nsteps(it.args[0]):
+            good += 1
+        elif len(it.args) == 2:
+            lo, hi = resolve(it.args[0]), resolve(it.args[1])
+            # range(c, n + c)
+            if isinstance(lo, ast.Constant) and isinstance(hi, ast.BinOp) and isinstance(hi.op, ast.Add):
+                parts = [hi.left, hi.right]
+                if any(is_nsteps(p) for p in parts) and any(isinstance(resolve(p), ast.Constant) and resolve(p).value == lo.value for p in parts):
                     good += 1
-            obs.append(req_ob("R-STEPS", site, "every time loop runs over range(config.met.n_timesteps)", bool(loops) and good == len(loops), detail="%d of %d range loops" % (good, len(loops))))
+            elif isinstance(lo, ast.Constant) and lo.value == 0 and is_nsteps(hi):
+                good += 1
+    obs.append(req_ob("R-STEPS", site, "every time loop runs over the n_timesteps steps", bool(loops) and good == len(loops) if loops else None, detail="%d of %d range loops" % (good, len(loops))))
     return obs
 
 
